@@ -3,6 +3,7 @@ package checks
 import (
 	"fmt"
 	"hash"
+	"runtime"
 	"sync"
 
 	"github.com/ja7ad/otp"
@@ -169,6 +170,23 @@ func c01(r *ev.Run) {
 		}
 		return got, ""
 	}
+	r.Scenario("e2e-sequence", func(raw []byte) (string, string) {
+		cs := unjson[[]c01Case](raw)
+		obs := ""
+		emptySyncPools()
+		for i, c := range cs {
+			v, key := ref.B32Classify(c.Secret)
+			if v != ref.MustAccept {
+				return "", ""
+			}
+			o, bad := hotpE2E(c, key)
+			obs += o + ";"
+			if bad != "" {
+				return obs, fmt.Sprintf("call %d of the sequence: %s", i, bad)
+			}
+		}
+		return obs, ""
+	})
 	r.Scenario("chosen-hmac-pipeline", func(raw []byte) (string, string) { return l2(unjson[c01L1](raw)) })
 	if ReplayOnly {
 		return
@@ -324,8 +342,38 @@ func c01(r *ev.Run) {
 		l3n += local
 		mu.Unlock()
 	})
+	// call sequences on one goroutine: every ordered pair of counters (a result must not depend on
+	// the call before it), digits 6 and 10, three hashes
+	var sn int64
+	seqKey := secs[len(secs)/2]
+	seqCtr := []uint64{0, 1, 1<<31 - 1, 1 << 31, 1<<32 - 1, 1 << 32, 1<<32 + 1, 1 << 40, 1<<63 - 1, 1 << 63, ^uint64(0)}
+	for _, c1 := range seqCtr {
+		for _, c2 := range seqCtr {
+			for a := 0; a < 3; a++ {
+				for _, d := range []int{6, 10} {
+					if !r.Thorough() && (a+d/4)%2 == 1 && c1 != 1<<40 {
+						continue
+					}
+					cs := []c01Case{{seqKey.spell[0], c1, d, a, false}, {seqKey.spell[0], c2, 16 - d, (a + 1) % 3, false}, {seqKey.spell[0], c2, d, a, d == 6 && a == 0}}
+					obs := ""
+					emptySyncPools() // every sequence starts from empty pools, so a failure replays
+					for i, c := range cs {
+						o, bad := hotpE2E(c, seqKey.key)
+						obs += o + ";"
+						sn++
+						if bad != "" {
+							r.Fail("e2e-sequence", fmt.Sprintf("after counter %d: call %d (counter %d digits %d algo %d)", c1, i, c.Counter, c.Digits, c.Algo), cs, bad, obs)
+							break
+						}
+					}
+				}
+			}
+		}
+	}
+	r.Eval(sn)
+	r.Set("l3_sequence_calls", sn)
 	// unsupported (digits, hash): all 256 x 256 values
-	usecs := []sec{secs[0], secs[26], secs[34], secs[63]}
+	usecs := []sec{secs[0], secs[len(secs)/3], secs[len(secs)/2], secs[len(secs)-1]}
 	if r.Thorough() {
 		usecs = secs
 	}
@@ -355,9 +403,16 @@ func c01(r *ev.Run) {
 	})
 	r.Set("l3_supported_cases", l3n)
 	r.Set("l3_unsupported_cases", un)
-	r.Sample(map[string]any{"layer": "e2e", "case": c01Case{secs[26].spell[0], 1 << 63, 10, 2, false}, "ref": ref.HOTP(secs[26].key, 1<<63, 10, 2)})
+	r.Sample(map[string]any{"layer": "e2e", "case": c01Case{secs[42].spell[0], 1 << 63, 10, 2, false}, "ref": ref.HOTP(secs[42].key, 1<<63, 10, 2)})
 	r.Sample(map[string]any{"layer": "e2e-unsupported", "case": c01Case{secs[0].spell[0], 0, 11, 0, false}, "want": "(\"\", error)"})
 	r.Set("alphabet", map[string]any{"secret_lengths": secretLens, "secret_contents": "00.., FF.., ramp, seed filler", "spellings": "unpadded, padded, lower, mixed+whitespace", "counters": counterAlphabet, "digits": "0..255", "hash": "0..255", "windows_quick": len(ws)})
 	r.Rule("L1: every window value of the declared set (thorough: all 2^32) x digits 1..10 x (sum length, offset) through the real truncate/format stage vs decimal-odometer / Sprintf reference; L2: same values injected as HMAC output into the real GenerateHOTP; L3: full product secrets x spellings x counters x digits x hash through GenerateHOTP vs an independent RFC 4226 implementation, plus all 256x256 (digits,hash) pairs for the error clause. distinct = distinct output strings observed (L1 at offset 3, L3 at 10 digits)")
 	r.Assume("crypto/hmac, crypto/sha1, sha256, sha512 of the Go standard library are correct (shared by reference and implementation)")
+}
+
+// emptySyncPools empties every sync.Pool of the process (two collections: the second one
+// drops the victim cache), giving call sequences a defined start state in the plain build.
+func emptySyncPools() {
+	runtime.GC()
+	runtime.GC()
 }
